@@ -24,6 +24,29 @@ use zkryptium::schemes::generics::{BlindSignature, Commitment, PoKSignature, Sig
 use zkryptium::utils::message::cl03_message::CL03Message;
 use zkryptium::verif_hooks;
 
+/// A toy ciphersuite (9-bit safe primes: only 263, 347, 359, 383, 467, 479, 503 exist): the sizes of the toy
+/// model MC_cl!C18toy, run through the library's own key generation
+#[derive(Clone, PartialEq, Eq, Debug, serde::Serialize, serde::Deserialize)]
+pub struct CLToy16Sha256 {}
+impl CLCiphersuite for CLToy16Sha256 {
+    const SECPARAM: u32 = 8;
+    const QSEC: u32 = 19;
+    const ln: u32 = 16;
+    const lm: u32 = 8;
+    const lin: u32 = 8;
+    const le: u32 = 10;
+    const ls: u32 = 32;
+    const RANGEPROOF_ALG: zkryptium::cl03::range_proof::RangeProof = zkryptium::cl03::range_proof::RangeProof::Boudot2000;
+    const t: u32 = 128;
+    const l: u32 = 40;
+    const s: u32 = 40;
+    const s1: u32 = 40;
+    const s2: u32 = 552;
+}
+impl Ciphersuite for CLToy16Sha256 {
+    type HashAlg = Sha256;
+}
+
 pub struct KeySet {
     pub pk: CL03PublicKey,
     pub sk: CL03SecretKey,
@@ -138,6 +161,16 @@ where
                 s2 == sig && s3 == sig && s2.verify_multiattr(&ks.pk, &ks.bases, &msgs)
             });
             ev.push(json!({"op": "CLRoundTrip", "suite": suite, "what": "signature", "key": ki, "n": n, "res": b3(rt)}));
+            // the encodings of signatures whose v is short (small values; the first octets of v zero): octets and JSON
+            for vv in [Integer::from(5), Integer::from(2).pow(C::ln - 9) + 3u32, Integer::from(2).pow(C::ln - 17)] {
+                let rt = guard(|| {
+                    let sg: Signature<CL03<C>> = make_sig(&e, &sv, &vv);
+                    let s2 = Signature::<CL03<C>>::from_bytes(&sg.to_bytes());
+                    let s3: Signature<CL03<C>> = serde_json::from_str(&serde_json::to_string(&sg).unwrap()).unwrap();
+                    s2 == sg && s3 == sg
+                });
+                ev.push(json!({"op": "CLRoundTrip", "suite": suite, "what": "signature_short_v", "key": ki, "n": n, "res": b3(rt)}));
+            }
             // single-attribute interface
             if n == 1 {
                 let sg = Signature::<CL03<C>>::sign(&ks.pk, &ks.sk, &ks.bases, &msgs[0]);
@@ -800,6 +833,24 @@ where
             let (e, _s, v) = sig_parts(sig.cl03Signature());
             let bases_n = Bases(ks.bases.0[..n].to_vec());
             let cpk = CL03CommitmentPublicKey { N: ks.cpk_issuer.N.clone(), h: ks.cpk_issuer.h.clone(), g_bases: ks.cpk_issuer.g_bases[..n].to_vec() };
+            // the signature proof with the hidden positions given in descending order and with a position named twice
+            // (the responses must be masked whatever the shape of the list)
+            if n >= 2 {
+                let bases_n2 = Bases(ks.bases.0[..n].to_vec());
+                let cpk2 = CL03CommitmentPublicKey { N: ks.cpk_issuer.N.clone(), h: ks.cpk_issuer.h.clone(), g_bases: ks.cpk_issuer.g_bases[..n].to_vec() };
+                for ul in [vec![n - 1, 0], vec![0, n - 1, n - 1]] {
+                    let pr = guard(|| PoKSignature::<CL03<C>>::proof_gen(sig.cl03Signature(), &cpk2, &ks.pk, &bases_n2, &msgs, &ul));
+                    let Ok(proof) = pr else { continue };
+                    let pj = serde_json::to_value(&proof).unwrap();
+                    let mut uset = ul.clone();
+                    uset.sort();
+                    uset.dedup();
+                    let mut secrets: Vec<(String, Integer)> = uset.iter().map(|&i| (format!("m{i}"), msgs[i].value.clone())).collect();
+                    secrets.push(("e".into(), e.clone()));
+                    secrets.push(("v".into(), v.clone()));
+                    mask_events::<C>("spok", suite, n, &ul, &pj, &secrets, ks, &[], ev);
+                }
+            }
             for u in subsets(n).into_iter().filter(|u| !u.is_empty()) {
                 if !thorough && n == maxn && u.len() == 2 {
                     continue;
@@ -923,6 +974,27 @@ where
 /// pair: does value = g^x * h^randomness hold for a hidden secret x?  Can v be recovered?
 fn leak_events<C: CLCiphersuite>(pname: &str, suite: u32, ki: usize, n: usize, u: &[usize], pj: &Value, secrets: &[(String, Integer)], pairs: &[(&str, Integer, Integer)], modulus: &Integer,
     vrec: Option<(&Integer, &Integer)>, ev: &mut Vec<Value>) {
+    // the per-attribute commitments: with the g-part stripped by the witness holder, the randomness parts h^(r_i) are
+    // pairwise different and no two cancel (otherwise a quotient / product of two commitment values is a function of
+    // two hidden attributes alone)
+    {
+        let leaves0 = int_leaves(pj);
+        let mut parts: Vec<(usize, Integer)> = vec![];
+        for (k, &i) in u.iter().enumerate() {
+            let path = format!("/CL03/proofs_commited_mi/{k}/commitment/value");
+            let (Some(val), Some(m), Some(pair)) = (leaves0.iter().find(|(p, _)| *p == path).map(|x| x.1.clone()), secrets.iter().find(|(sn, _)| *sn == format!("m{i}")).map(|x| x.1.clone()), pairs.get(k)) else { continue };
+            parts.push((i, (val * pow_signed_big(&pair.1, &(-m), modulus)).modulo(modulus)));
+        }
+        let mut hits: Vec<Value> = vec![];
+        for a in 0..parts.len() {
+            for b in a + 1..parts.len() {
+                if parts[a].1 == parts[b].1 || (parts[a].1.clone() * &parts[b].1).modulo(modulus) == 1 {
+                    hits.push(json!([parts[a].0, parts[b].0]));
+                }
+            }
+        }
+        ev.push(json!({"op": "CLCommitRand", "suite": suite, "proof": pname, "key": ki, "n": n, "U": u, "stripped": parts.len(), "hits": hits}));
+    }
     let _ = ki;
     let leaves = int_leaves(pj);
     // (value, randomness) shaped pairs: siblings named value / randomness
@@ -1059,11 +1131,48 @@ where
             }
         }
     }
+    // range proofs embedded in the proof: each proof of square answers for isqrt(2^T (x - a)) resp. isqrt(2^T (b - x));
+    // what floor(d / c)^2 / 2^T says about the value x the range proof is about
+    {
+        let get = |path: &str| leaves.iter().find(|(p, _)| p == path).map(|x| x.1.clone());
+        let mut targets: Vec<(String, String, Integer, Integer, Integer)> = vec![]; // prefix, secret name, x, a, b
+        let sec = |name: &str| secrets.iter().find(|(n2, _)| n2 == name).map(|x| x.1.clone());
+        let lm_max: Integer = Integer::from(2).pow(C::lm) - 1u32;
+        if let Some(e) = sec("e") {
+            targets.push(("/CL03/range_proof_e".into(), "e".into(), e, Integer::from(2).pow(C::le - 1) + 1u32, Integer::from(2).pow(C::le) - 1u32));
+        }
+        if let Some(r) = sec("r") {
+            targets.push(("/CL03/range_proof_r".into(), "r".into(), r, Integer::from(0), Integer::from(2).pow(C::ln) - 1u32));
+        }
+        for (k, &i) in u.iter().enumerate() {
+            if let Some(m) = sec(&format!("m{i}")) {
+                targets.push((format!("/CL03/range_proofs_commited_mi/{k}"), format!("m{i}"), m.clone(), Integer::from(0), lm_max.clone()));
+                targets.push((format!("/CL03/range_proofs_mi/{k}"), format!("m{i}"), m, Integer::from(0), lm_max.clone()));
+            }
+        }
+        for (prefix, name, x, a, b) in targets {
+            let tt = 2 * (128u32 + 40 + 1) + (&b - &a).complete().significant_bits();
+            for side in ["a", "b"] {
+                let base = format!("{prefix}/proof_of_tolerance/proof_of_square_{side}/proof_ss");
+                let (Some(d), Some(c)) = (get(&format!("{base}/d")), get(&format!("{base}/challenge"))) else { continue };
+                if c == 0 {
+                    continue;
+                }
+                let q = d.div_rem_floor(c).0;
+                let sq = Integer::from(&q * &q) >> tt;
+                let est = if side == "a" { (&a + &sq).complete() } else { (&b - &sq).complete() };
+                let bits = (est - &x).abs().significant_bits();
+                ev.push(json!({"op": "CLRangeMask", "suite": suite, "proof": pname, "n": n, "U": u, "path": norm_path(&format!("{base}/d")), "secret": name, "bits": bits}));
+            }
+        }
+    }
     // implied blindings: for every response s, recomputable challenge c and secret x, the value s - c x (and
     // s + c x).  Two different response leaves with the same implied blinding share it -- also when they
     // belong to two sub-proofs with different challenges: (s - s') / (c - c') would then be the secret
     {
-        let mut implied: std::collections::HashMap<Integer, (String, String)> = Default::default();
+        // (a position named twice in the hidden list yields the same response twice: one value, not two values
+        // sharing a blinding; such exact repetitions of a response for the same secret are skipped)
+        let mut implied: std::collections::HashMap<Integer, (String, String, Integer)> = Default::default();
         'outer: for (p, s) in &resp {
             for (_, c) in &challenges {
                 if *c == 0 {
@@ -1079,7 +1188,7 @@ where
                             continue;
                         }
                         match implied.get(&b) {
-                            Some((p0, sn0)) if p0 != p => {
+                            Some((p0, sn0, s0)) if p0 != p && !(*s0 == *s && sn0 == sn) => {
                                 diffs.push(json!({"path": norm_path(p0), "path2": norm_path(p), "secrets": [sn0, sn], "kind": "implied blinding"}));
                                 if diffs.len() > 8 {
                                     break 'outer;
@@ -1087,7 +1196,7 @@ where
                             }
                             Some(_) => {}
                             None => {
-                                implied.insert(b, (p.clone(), sn.clone()));
+                                implied.insert(b, (p.clone(), sn.clone(), (*s).clone()));
                             }
                         }
                     }
@@ -1190,7 +1299,7 @@ where
             "p_prime": miller_rabin(p, 20), "q_prime": miller_rabin(q, 20), "p_half_prime": miller_rabin(&half(p), 20), "q_half_prime": miller_rabin(&half(q), 20),
             "p_bits": p.significant_bits(), "q_bits": q.significant_bits(),
             "elements_qr": all_qr, "cpk_issuer_qr": cq, "cpk_issuer_modulus_is_issuer": &ks.cpk_issuer.N == n, "cpk_own_in_range": own_range,
-            "cpk_own_modulus_bits": own.N.significant_bits(), "roundtrip": b3(rt)}));
+            "cpk_own_modulus_bits": own.N.significant_bits(), "cpk_own_not_square": !own.N.is_perfect_square(), "roundtrip": b3(rt)}));
     }
     // random_bits / rand_int
     use zkryptium::utils::random::{rand_int, random_bits};
@@ -1270,6 +1379,11 @@ fn main() {
     match suite {
         1024 => go::<CL1024Sha256>(&args[1], nkeys, seed, thorough, &dv, stride, &mut ev),
         2048 => go::<CL2048Sha256>(&args[1], nkeys, seed, thorough, &dv, stride, &mut ev),
+        16 => {
+            // toy sizes: key generation facts only
+            let keys = gen_keys::<CLToy16Sha256>(nkeys, 3);
+            drv_keys::<CLToy16Sha256>(&keys, seed, &mut ev);
+        }
         _ => { eprintln!("unknown suite"); std::process::exit(2); }
     }
     let mut out = String::new();
